@@ -216,11 +216,8 @@ def exempt(ctx, f, eff, w, r):
             return "facade read"
     if f.qual == SETTERS['children'] and rkind == 'call' and rcallee is not None and rcallee.qual == SETTERS['parent']:
         return "E1 every guard of the parent setter is established before the first write (obligation children_prevalidated)"
-    if f.qual == SETTERS['parent'] and rkind == 'call' and rcallee is not None and rcallee.qual == 'task._ChildrenList.append' and \
-            match("self._Task__wbs._root().children.append(self)", rnode):
-        return "E3 re-rooting under the own WBS root cannot be rejected"
-    if f.qual == SETTERS['parent'] and rkind == 'call' and rcallee is not None and rcallee.qual in (SETTERS['parent'], 'task._check_not_none') and \
-            match("self._Task__wbs._root().children.append(self)", rnode):
+    if f.qual == SETTERS['parent'] and rkind == 'call' and rcallee is not None and \
+            rcallee.qual in ('task._ChildrenList.append', SETTERS['parent'], 'task._check_not_none') and _is_reroot(ctx, f, rnode):
         return "E3 re-rooting under the own WBS root cannot be rejected"
     if rkind == 'implicit' and isinstance(rnode, ast.Call) and isinstance(rnode.func, ast.Attribute) and rnode.func.attr == 'remove':
         conds = facts.node_conditions(prog, f, rnode, ctx.typer, expand=False)
@@ -237,6 +234,19 @@ def exempt(ctx, f, eff, w, r):
             rcallee is not None and (rcallee.qual in NON_REJECTING or rcallee.name in ('remove', '__remove', '_check_not_none')):
         return "E3 removal of current members cannot be rejected"
     return None
+
+
+def _is_reroot(ctx, f, node) -> bool:
+    """node is (after expanding hoisted locals) `self.__wbs._root().children.append(self)`"""
+    if not isinstance(node, ast.Call):
+        return False
+    if match("self._Task__wbs._root().children.append(self)", node):
+        return True
+    try:
+        ex = Expander(ctx.prog, f, ctx.typer, inline=False)
+        return bool(match("self._Task__wbs._root().children.append(self)", ex.expand(node)))
+    except Exception:
+        return False
 
 
 # ======================================================================================================================
@@ -267,10 +277,10 @@ def cannot_reject(ctx, o, eff):
         else:
             o.site(g, g.node, f"{g.name} raises nothing")
     p = prog.func(SETTERS['parent'])
-    rr = [n for n in ast.walk(p.node) if match("self._Task__wbs._root().children.append(self)", n)]
+    rr = [n for n in facts.calls_named(p, 'append') if _is_reroot(ctx, p, n)]
     if rr:
-        conds = facts.node_conditions(prog, p, rr[0], ctx.typer, expand=False)
-        if any(match("self._Task__wbs is not None", t) and q for t, q in conds):
+        conds = facts.node_conditions(prog, p, rr[0], ctx.typer, expand=True)
+        if any(facts.cond_is(t, q, "self._Task__wbs is None", want=False) for t, q in conds):
             o.site(p, rr[0], "re-rooting targets self.__wbs._root()")
         else:
             o.refute(p, rr[0], rr[0], "re-rooting is attempted without a WBS")
